@@ -1066,7 +1066,7 @@ def protocol_rule(index, rep, rid, modules):
     n = 0
     for m in modules:
         for f in index.functions_in_module(m):
-            if f.name in INPLACE_DUNDERS:
+            if f.name in INPLACE_DUNDERS or f.name in ("__copy__", "__deepcopy__"):
                 g = cfg_of(f)
                 n += 1
                 bad = None
@@ -1079,7 +1079,9 @@ def protocol_rule(index, rep, rid, modules):
                         if any(t is g.exit and lab != "e" for lab, t in nd.succ) and not (nd.kind == "stmt" and isinstance(nd.ast, (ast.Return, ast.Raise))) and g.can_reach(g.entry, lambda x, nd=nd: x is nd, skip_src=False):
                             bad = nd.stmt or f.node
                 rep.check(bad is None, rid, f.qualname, "%s can return None" % f.name, fn_where(f, bad), "%s returns an object on every normal path" % f.qualname,
-                          "%s has a normal path that returns None (`%s`): `a %s= b` rebinds `a` to the method's result, so on that path the collection the caller was accumulating into is replaced by None and the next operation on it fails" % (f.qualname, norm_stmt(bad)[:50] if isinstance(bad, ast.stmt) else "falls off the end", {"__iadd__": "+", "__ior__": "|", "__isub__": "-", "__imul__": "*", "__iand__": "&"}.get(f.name, "op")))
+                          ("%s has a normal path that returns None (`%s`): `a %s= b` rebinds `a` to the method's result, so on that path the collection the caller was accumulating into is replaced by None and the next operation on it fails" % (f.qualname, norm_stmt(bad)[:50] if isinstance(bad, ast.stmt) else "falls off the end", {"__iadd__": "+", "__ior__": "|", "__isub__": "-", "__imul__": "*", "__iand__": "&"}.get(f.name, "op")))
+                          if f.name in INPLACE_DUNDERS else
+                          ("%s has a normal path that returns None (%s): copy.copy / copy.deepcopy hand the hook's result to the caller, so the 'copy' of every object whose class inherits this hook is None" % (f.qualname, "`%s`" % norm_stmt(bad)[:50] if isinstance(bad, ast.stmt) else "it falls off the end")))
             for c in calls_in(f.node, nested=True):
                 tmpl = None
                 if isinstance(c.func, ast.Attribute) and c.func.attr == "format":
